@@ -243,7 +243,7 @@ theorem proto_roundtrip (cfg : KCfg) (n : Neg) (p : Proto) (u num : Bool)
 
 theorem pkv_plain (n : Neg) (k : Str) (args : List Str) (h : k ≠ s "--tcp-flags") :
     pkv ⟨n, k, args⟩ = (k, (OptW.mk n k args).value) := by
-  unfold pkv fixSyn; rw [if_neg (fun hc => h hc.1)]
+  unfold pkv fixSyn; rw [if_neg (fun hc => h hc.1)]; rfl
 
 theorem nEntry_plain (d : Bool) (k v : Str) (h1 : k ≠ kM) (h2 : k ≠ kXmark) :
     nEntry d (k, v) = some (k, normVal k v) := by
@@ -302,10 +302,8 @@ theorem opt_roundtrip (cfg : KCfg) (a : AOpt) (hwf : a.wf = true) (hnm : ∀ n, 
       nEntry_plain _ _ _ (by decide) (by decide), value_no, value_no, join1, join1, normVal_dport, normVal_dport,
       port_roundtrip ps z o hwf]
   | syn n f =>
-    simp only [AOpt.wf] at hwf
-    subst hwf
     obtain ⟨names⟩ := cfg
-    cases names <;> cases f <;> cases d1 <;> cases d2 <;> decide
+    cases names <;> cases n <;> cases f <;> cases d1 <;> cases d2 <;> decide
   | icmpType t =>
     simp only [AOpt.user, AOpt.kernel]
     rw [pkv_plain _ _ _ (by decide), nEntry_plain _ _ _ (by decide) (by decide), nEntry_plain _ _ _ (by decide) (by decide)]
